@@ -831,7 +831,16 @@ func (f *Frame) atPoint(where string, st *State, b *ssa.BasicBlock, idx int) {
 				if strings.HasPrefix(k, "$") {
 					extra[k] = v
 				} else if _, _, found := f.lookupName(k, b, idx); !found {
-					extra[k] = v
+					// captured variables of a closure unit are the caller's own variables too
+					captured := false
+					for _, fv := range f.fn.FreeVars {
+						if fv.Name() == k {
+							captured = true
+						}
+					}
+					if !captured {
+						extra[k] = v
+					}
 				}
 			}
 		}
